@@ -1,6 +1,6 @@
 (* LspDocP.v — proofs about the LSP document mirror model (Model/LspDoc.v) against the protocol
    specification (Spec/LspSpec.v):
-     1. totality (no slice panic) of pos_to_off / apply_change / apply_all / dm_run and the line-cache invariant;
+     1. totality (no slice panic) of pos_off / apply_change / apply_all / dm_run and the line-cache invariant;
      2. the UTF-8 key lemmas (rune_len / rune_units on an encoded scalar value);
      3. mirror correctness: the byte-level edit equals the encoding of the code-point-level edit. *)
 From Coq Require Import List NArith ZArith Bool Arith Lia ZifyNat ZifyN ZifyBool.
@@ -13,48 +13,69 @@ Ltac Zify.zify_post_hook ::= Z.div_mod_to_equations.
 (* 1. Totality                                                                                   *)
 (* ------------------------------------------------------------------------------------------- *)
 
-Lemma prefix_len_nonneg : forall k lines, (0 <= prefix_len k lines)%Z.
+Lemma col_walk_bounds : forall s skip u col i,
+  (i <= col_walk s skip u col i <= i + length s)%nat.
 Proof.
-  induction k as [|k IH]; intros [|l ls]; cbn [prefix_len]; try (specialize (IH ls)); lia.
+  induction s as [|c t IH]; intros skip u col i.
+  - cbn [col_walk length]. lia.
+  - rewrite (eq_refl : length (c :: t) = S (length t)).
+    destruct skip as [|k].
+    + rewrite (eq_refl : col_walk (c :: t) 0 u col i =
+        if (u + rune_units (c :: t) >? col)%Z then i
+        else col_walk t (pred (rune_len (c :: t))) (u + rune_units (c :: t))%Z col (S i)).
+      destruct (u + rune_units (c :: t) >? col)%Z; [lia|].
+      specialize (IH (pred (rune_len (c :: t))) (u + rune_units (c :: t))%Z col (S i)). lia.
+    + cbn [col_walk]. specialize (IH k u col (S i)). lia.
 Qed.
 
-Lemma prefix_len_min : forall k lines, prefix_len (Nat.min k (length lines)) lines = prefix_len k lines.
+Lemma utf16_col_to_off_le : forall l char, (utf16_col_to_off l char <= length l)%nat.
 Proof.
-  induction k as [|k IH]; intros [|l ls]; cbn [Nat.min length prefix_len]; try reflexivity.
-  rewrite IH. reflexivity.
+  intros l char. unfold utf16_col_to_off.
+  pose proof (col_walk_bounds l 0 0%Z char 0) as H. lia.
 Qed.
 
-Lemma prefix_len_loop : forall line lines, (0 <= line)%Z ->
-  prefix_len (loop_count line lines) lines = prefix_len (Z.to_nat line) lines.
+Lemma first_line_length : forall s, (length (first_line s) <= length s)%nat.
 Proof.
-  intros line lines H. unfold loop_count.
-  rewrite Z2Nat.inj_min, Nat2Z.id. apply prefix_len_min.
+  induction s as [|c t IH]; cbn [first_line length]; [lia|].
+  destruct (is_eol c); cbn [length]; lia.
 Qed.
 
-Theorem pos_to_off_val : forall lines line char,
-  exists z, pos_to_off lines line char = Val z /\ (0 <= z)%Z.
+Lemma off_walk_bounds : forall s rem after_cr char i,
+  (i <= off_walk s rem after_cr char i <= i + length s)%nat.
 Proof.
-  intros lines line char. unfold pos_to_off.
-  destruct (Z.ltb_spec line 0) as [Hneg|Hnn].
-  - exists 0%Z. split; [reflexivity|lia].
-  - pose proof (prefix_len_nonneg (Z.to_nat line) lines) as Hp.
-    cbv zeta. rewrite (prefix_len_loop line lines Hnn).
-    destruct (Z.leb_spec (Z.of_nat (length lines)) line) as [Hle|Hlt].
-    + eexists. split; [reflexivity|].
-      destruct (prefix_len (Z.to_nat line) lines >? 0)%Z eqn:E; lia.
-    + destruct (nth_error lines (Z.to_nat line)) as [l|] eqn:E.
-      * eexists. split; [reflexivity|lia].
-      * apply nth_error_None in E. lia.
+  induction s as [|c t IH]; intros rem after_cr char i.
+  - cbn [off_walk length]. lia.
+  - cbn [off_walk].
+    destruct (after_cr && (c =? 10)%N).
+    { specialize (IH rem false char (S i)). cbn [length]. lia. }
+    destruct (rem <=? 0)%Z.
+    { pose proof (utf16_col_to_off_le (first_line (c :: t)) char) as H1.
+      pose proof (first_line_length (c :: t)) as H2. lia. }
+    destruct (c =? 10)%N.
+    { specialize (IH (rem - 1)%Z false char (S i)). cbn [length]. lia. }
+    destruct (c =? 13)%N.
+    { specialize (IH (rem - 1)%Z true char (S i)). cbn [length]. lia. }
+    specialize (IH rem false char (S i)). cbn [length]. lia.
+Qed.
+
+Theorem pos_off_bounds : forall content line char,
+  (0 <= pos_off content line char <= Z.of_nat (length content))%Z.
+Proof.
+  intros content line char. unfold pos_off.
+  destruct (line <? 0)%Z; [lia|].
+  pose proof (off_walk_bounds content line false char 0) as H. lia.
 Qed.
 
 Theorem apply_change_total : forall content lines r text,
   apply_change content lines r text <> Panic.
 Proof.
   intros content lines r text. unfold apply_change.
-  destruct (pos_to_off_val lines (r_sl r) (r_sc r)) as [s0 [Hs Hs0]].
-  destruct (pos_to_off_val lines (r_el r) (r_ec r)) as [e0 [He He0]].
-  rewrite Hs, He. cbv zeta.
-  set (len := Z.of_nat (length content)).
+  pose proof (pos_off_bounds content (r_sl r) (r_sc r)) as Hs0.
+  pose proof (pos_off_bounds content (r_el r) (r_ec r)) as He0.
+  set (s0 := pos_off content (r_sl r) (r_sc r)) in *.
+  set (e0 := pos_off content (r_el r) (r_ec r)) in *.
+  clearbody s0 e0. cbv zeta.
+  set (len := Z.of_nat (length content)) in *.
   assert (Hlen : (0 <= len)%Z) by lia.
   remember (if (s0 >? len)%Z then len else s0) as s eqn:Heqs.
   assert (Hsr : (0 <= s <= len)%Z).
@@ -187,6 +208,17 @@ Proof.
     repeat (destruct Hin as [Hin|Hin]; [subst b; lia|]); contradiction.
 Qed.
 
+Lemma enc_cp_cr : enc_cp 13 = [13%N].
+Proof. reflexivity. Qed.
+
+Lemma enc_cp_no_eol : forall c b, c <> 10%N -> c <> 13%N -> In b (enc_cp c) -> b <> 10%N /\ b <> 13%N.
+Proof.
+  intros c b Hne Hne'. unfold enc_cp.
+  destruct (c <? 128)%N; [|destruct (c <? 2048)%N; [|destruct (c <? 65536)%N]];
+    cbn [In]; intros Hin;
+    repeat (destruct Hin as [Hin|Hin]; [subst b; lia|]); contradiction.
+Qed.
+
 (* ------------------------------------------------------------------------------------------- *)
 (* 3. Mirror correctness                                                                         *)
 (* ------------------------------------------------------------------------------------------- *)
@@ -229,129 +261,17 @@ Proof. intros n d. rewrite (enc_split n d) at 1. apply firstn_app_exact. Qed.
 Lemma skipn_enc : forall n d, skipn (length (enc (firstn n d))) (enc d) = enc (skipn n d).
 Proof. intros n d. rewrite (enc_split n d) at 1. apply skipn_app_exact. Qed.
 
-(* 3b. a byte-level offset function on the flat byte string mirroring pos_to_off after split_lines *)
+(* 3b. the column walk on the first line of an encoded document *)
 
-Fixpoint first_line (s : list N) : list N :=
-  match s with
-  | [] => []
-  | c :: t => if (c =? 10)%N then [] else c :: first_line t
-  end.
-
-Fixpoint boff (s : list N) (k : nat) (char : Z) {struct s} : nat :=
-  match k with
-  | O => utf16_col_to_off (first_line s) char
-  | S k' =>
-      match s with
-      | [] => O
-      | c :: t => S (boff t (if (c =? 10)%N then k' else S k') char)
-      end
-  end.
-
-Lemma boff_zero : forall s char, boff s 0 char = utf16_col_to_off (first_line s) char.
-Proof. intros [|c t] char; reflexivity. Qed.
-
-Lemma split_lines_nonnil : forall s, split_lines s <> [].
-Proof.
-  induction s as [|c t IH]; cbn [split_lines]; [discriminate|].
-  destruct (c =? 10)%N; [discriminate|]. destruct (split_lines t); discriminate.
-Qed.
-
-Lemma split_lines_first : forall s, split_lines s = first_line s :: tl (split_lines s).
-Proof.
-  induction s as [|c t IH]; cbn [split_lines first_line]; [reflexivity|].
-  destruct (c =? 10)%N; [reflexivity|].
-  rewrite IH. reflexivity.
-Qed.
-
-(* pos_to_off on a natural line number *)
-Definition pto (lines : list (list N)) (k : nat) (char : Z) : outcome Z :=
-  if (length lines <=? k)%nat then
-    Val (if (prefix_len k lines >? 0)%Z then (prefix_len k lines - 1)%Z else prefix_len k lines)
-  else
-    match nth_error lines k with
-    | Some l => Val (prefix_len k lines + Z.of_nat (utf16_col_to_off l char))%Z
-    | None => Panic
-    end.
-
-Lemma pos_to_off_nat : forall lines k char, pos_to_off lines (Z.of_nat k) char = pto lines k char.
-Proof.
-  intros lines k char. unfold pos_to_off, pto. cbv zeta.
-  destruct (Z.ltb_spec (Z.of_nat k) 0) as [Hneg|Hk]; [lia|].
-  rewrite (prefix_len_loop _ lines Hk).
-  rewrite Nat2Z.id.
-  destruct (Z.leb_spec (Z.of_nat (length lines)) (Z.of_nat k)) as [H1|H1];
-    destruct (Nat.leb_spec (length lines) k) as [H2|H2]; try lia; reflexivity.
-Qed.
-
-Lemma pto_zero : forall l ls char, pto (l :: ls) 0 char = Val (Z.of_nat (utf16_col_to_off l char)).
-Proof. intros l ls char. unfold pto. cbn [length Nat.leb nth_error prefix_len]. rewrite Z.add_0_l. reflexivity. Qed.
-
-Lemma pto_cons : forall l ls k char z, ls <> [] -> pto ls k char = Val z ->
-  pto (l :: ls) (S k) char = Val (Z.of_nat (length l) + 1 + z)%Z.
-Proof.
-  intros l ls k char z Hne H. unfold pto in *. cbn [length Nat.leb nth_error prefix_len].
-  pose proof (prefix_len_nonneg k ls) as Hp.
-  destruct (Nat.leb_spec (length ls) k) as [Hle|Hlt].
-  - assert (Hpos : (0 < prefix_len k ls)%Z).
-    { destruct ls as [|l' ls']; [contradiction|]. destruct k as [|k']; cbn [length] in Hle; [lia|].
-      cbn [prefix_len]. pose proof (prefix_len_nonneg k' ls'). lia. }
-    injection H as <-.
-    destruct (prefix_len k ls >? 0)%Z eqn:E1; [|lia].
-    destruct (Z.of_nat (length l) + 1 + prefix_len k ls >? 0)%Z eqn:E2; [|lia].
-    f_equal. lia.
-  - destruct (nth_error ls k) as [l0|]; [|discriminate].
-    injection H as <-. f_equal. lia.
-Qed.
-
-Lemma pto_head : forall c l ls k char z, pto (l :: ls) (S k) char = Val z ->
-  pto ((c :: l) :: ls) (S k) char = Val (1 + z)%Z.
-Proof.
-  intros c l ls k char z H. unfold pto in *. cbn [length Nat.leb nth_error prefix_len] in *.
-  pose proof (prefix_len_nonneg k ls) as Hp.
-  destruct (Nat.leb_spec (length ls) k) as [Hle|Hlt].
-  - injection H as <-.
-    destruct (Z.of_nat (length l) + 1 + prefix_len k ls >? 0)%Z eqn:E1; [|lia].
-    destruct (Z.of_nat (S (length l)) + 1 + prefix_len k ls >? 0)%Z eqn:E2; [|lia].
-    f_equal. lia.
-  - destruct (nth_error ls k) as [l0|]; [|discriminate].
-    injection H as <-. f_equal. lia.
-Qed.
-
-Lemma pto_boff : forall char s k, pto (split_lines s) k char = Val (Z.of_nat (boff s k char)).
-Proof.
-  intros char. induction s as [|c t IH]; intros k.
-  - destruct k as [|k]; [reflexivity|]. destruct k; reflexivity.
-  - destruct k as [|k].
-    + rewrite split_lines_first, pto_zero, boff_zero. reflexivity.
-    + cbn [boff split_lines]. destruct (N.eqb_spec c 10) as [Heq|Hne].
-      * rewrite (pto_cons [] _ _ _ _ (split_lines_nonnil t) (IH k)).
-        f_equal. cbn [length]. lia.
-      * destruct (split_lines t) as [|l ls] eqn:E; [exfalso; eapply split_lines_nonnil; eauto|].
-        rewrite (pto_head c _ _ _ _ _ (IH (S k))). f_equal. lia.
-Qed.
-
-Lemma pos_to_off_boff : forall s k char,
-  pos_to_off (split_lines s) (Z.of_nat k) char = Val (Z.of_nat (boff s k char)).
-Proof. intros s k char. rewrite pos_to_off_nat. apply pto_boff. Qed.
-
-(* 3c. boff on an encoded document is the encoded length of the code-point prefix *)
-
-Lemma first_line_app_noLF : forall l s, (forall b, In b l -> b <> 10%N) ->
+Lemma first_line_app_noEOL : forall l s, (forall b, In b l -> b <> 10%N /\ b <> 13%N) ->
   first_line (l ++ s) = l ++ first_line s.
 Proof.
   induction l as [|a l IH]; intros s H; cbn [app first_line]; [reflexivity|].
-  destruct (N.eqb_spec a 10) as [Heq|Hne].
-  - exfalso. apply (H a); [left; reflexivity|exact Heq].
-  - f_equal. apply IH. intros b Hb. apply H. right. exact Hb.
-Qed.
-
-Lemma boff_app_noLF : forall l s k char, (forall b, In b l -> b <> 10%N) ->
-  boff (l ++ s) (S k) char = length l + boff s (S k) char.
-Proof.
-  induction l as [|a l IH]; intros s k char H; cbn [app boff length]; [reflexivity|].
-  destruct (N.eqb_spec a 10) as [Heq|Hne].
-  - exfalso. apply (H a); [left; reflexivity|exact Heq].
-  - rewrite IH; [reflexivity|]. intros b Hb. apply H. right. exact Hb.
+  destruct (H a (or_introl eq_refl)) as [H10 H13].
+  unfold is_eol.
+  destruct (N.eqb_spec a 10) as [Heq|_]; [contradiction|].
+  destruct (N.eqb_spec a 13) as [Heq|_]; [contradiction|].
+  cbn [orb]. f_equal. apply IH. intros b Hb. apply H. right. exact Hb.
 Qed.
 
 Lemma col_walk_cons0 : forall b t u col i,
@@ -374,50 +294,127 @@ Proof.
   intros char. induction d as [|c t IH]; intros u i Hv.
   - cbn. lia.
   - inversion Hv as [|c' t' Hc Ht]; subst c' t'.
-    rewrite enc_cons. cbn [spec_col].
+    rewrite enc_cons. cbn [spec_col]. unfold cp_eol.
     destruct (N.eqb_spec c 10) as [Heq|Hne].
-    + subst c. rewrite enc_cp_lf. cbn [app first_line]. rewrite N.eqb_refl.
-      cbn [col_walk firstn enc flat_map length]. lia.
-    + rewrite first_line_app_noLF by (intros b Hb; eapply enc_cp_no_lf; eauto).
-      pose proof (rune_len_enc c (first_line (enc t)) Hc) as HL.
-      pose proof (rune_units_enc c (first_line (enc t)) Hc) as HU.
-      destruct (enc_cp c) as [|b l] eqn:E; [exfalso; eapply enc_cp_nonnil; eauto|].
-      cbn [app] in HL, HU |- *.
-      rewrite col_walk_cons0, HU, HL. cbn [length pred].
-      destruct (u + cp_units c >? char)%Z.
-      * cbn [firstn enc flat_map length]. lia.
-      * rewrite col_walk_skip, IH by assumption.
-        cbn [firstn]. rewrite enc_cons, E, app_length. cbn [length]. lia.
+    { subst c. rewrite enc_cp_lf. cbn [app first_line].
+      change (is_eol 10%N) with true. cbv iota. cbn [orb].
+      cbn [col_walk firstn enc flat_map length]. lia. }
+    destruct (N.eqb_spec c 13) as [Heq|Hne'].
+    { subst c. rewrite enc_cp_cr. cbn [app first_line].
+      change (is_eol 13%N) with true. cbv iota. cbn [orb].
+      cbn [col_walk firstn enc flat_map length]. lia. }
+    cbn [orb].
+    rewrite first_line_app_noEOL by (intros b Hb; eapply enc_cp_no_eol; eauto).
+    pose proof (rune_len_enc c (first_line (enc t)) Hc) as HL.
+    pose proof (rune_units_enc c (first_line (enc t)) Hc) as HU.
+    destruct (enc_cp c) as [|b l] eqn:E; [exfalso; eapply enc_cp_nonnil; eauto|].
+    cbn [app] in HL, HU |- *.
+    rewrite col_walk_cons0, HU, HL. cbn [length pred].
+    destruct (u + cp_units c >? char)%Z.
+    * cbn [firstn enc flat_map length]. lia.
+    * rewrite col_walk_skip, IH by assumption.
+      cbn [firstn]. rewrite enc_cons, E, app_length. cbn [length]. lia.
 Qed.
 
-Lemma boff_enc : forall char d k, valid_text d ->
-  boff (enc d) k char = length (enc (firstn (spec_off d k char) d)).
+(* 3c. off_walk on an encoded document is the encoded length of the code-point prefix *)
+
+Lemma off_walk_zero : forall s after_cr char i,
+  after_cr && (hd 0%N s =? 10)%N = false ->
+  off_walk s (Z.of_nat 0) after_cr char i = i + utf16_col_to_off (first_line s) char.
 Proof.
-  intros char. induction d as [|c t IH]; intros k Hv.
-  - destruct k; reflexivity.
-  - destruct k as [|k].
-    + rewrite boff_zero. unfold utf16_col_to_off. rewrite col_walk_enc by assumption.
-      reflexivity.
-    + inversion Hv as [|c' t' Hc Ht]; subst c' t'.
-      rewrite enc_cons. cbn [spec_off firstn].
-      destruct (N.eqb_spec c 10) as [Heq|Hne].
-      * subst c. rewrite enc_cons, enc_cp_lf. cbn [app boff length]. rewrite N.eqb_refl.
-        rewrite IH by assumption. reflexivity.
-      * rewrite boff_app_noLF by (intros b Hb; eapply enc_cp_no_lf; eauto).
-        rewrite IH by assumption. rewrite enc_cons, app_length. reflexivity.
+  intros [|c t] after_cr char i H.
+  - cbn. lia.
+  - cbn [hd] in H. cbn [off_walk]. rewrite H. reflexivity.
+Qed.
+
+Lemma off_walk_app_noEOL : forall l s rem char i, (0 < rem)%Z ->
+  (forall b, In b l -> b <> 10%N /\ b <> 13%N) ->
+  off_walk (l ++ s) rem false char i = off_walk s rem false char (i + length l).
+Proof.
+  induction l as [|a l IH]; intros s rem char i Hrem H; cbn [app length].
+  - rewrite Nat.add_0_r. reflexivity.
+  - destruct (H a (or_introl eq_refl)) as [H10 H13].
+    cbn [off_walk andb].
+    destruct (Z.leb_spec rem 0) as [Hle|_]; [lia|].
+    destruct (N.eqb_spec a 10) as [Heq|_]; [contradiction|].
+    destruct (N.eqb_spec a 13) as [Heq|_]; [contradiction|].
+    rewrite IH; [f_equal; lia|exact Hrem|].
+    intros b Hb. apply H. right. exact Hb.
+Qed.
+
+Lemma off_walk_enc : forall d k after_cr char i, valid_text d ->
+  off_walk (enc d) (Z.of_nat k) after_cr char i
+  = (i + length (enc (firstn (spec_off d k after_cr char) d)))%nat.
+Proof.
+  induction d as [|c t IH]; intros k after_cr char i Hv.
+  - cbn. lia.
+  - inversion Hv as [|c' t' Hc Ht]; subst c' t'.
+    destruct (after_cr && (c =? 10)%N) eqn:Eacr.
+    { (* the LF of a CR LF *)
+      apply andb_true_iff in Eacr. destruct Eacr as [Ha Hc10].
+      apply N.eqb_eq in Hc10. subst c after_cr.
+      rewrite enc_cons, enc_cp_lf. cbn [app off_walk spec_off andb].
+      rewrite N.eqb_refl. cbv iota.
+      rewrite IH by assumption.
+      cbn [firstn]. rewrite enc_cons, enc_cp_lf, app_length. cbn [length]. lia. }
+    destruct k as [|k].
+    { (* the target line: column walk *)
+      cbn [spec_off]. rewrite Eacr.
+      rewrite off_walk_zero.
+      - unfold utf16_col_to_off. rewrite col_walk_enc by assumption. lia.
+      - rewrite enc_cons.
+        destruct (enc_cp c) as [|b l] eqn:E; [exfalso; eapply enc_cp_nonnil; eauto|].
+        cbn [app hd].
+        destruct (N.eqb_spec c 10) as [Heq|Hne].
+        + subst c. rewrite enc_cp_lf in E. injection E as <- <-. exact Eacr.
+        + destruct (N.eqb_spec c 13) as [Heq|Hne'].
+          * subst c. rewrite enc_cp_cr in E. injection E as <- <-. apply andb_false_r.
+          * destruct (enc_cp_no_eol c b Hne Hne') as [Hb _]; [rewrite E; left; reflexivity|].
+            destruct (N.eqb_spec b 10) as [Hb'|_]; [contradiction|]. apply andb_false_r. }
+    (* a line still to skip *)
+    cbn [spec_off]. rewrite Eacr. unfold cp_eol.
+    rewrite enc_cons.
+    assert (Hk : (Z.of_nat (S k) - 1 = Z.of_nat k)%Z) by lia.
+    destruct (N.eqb_spec c 10) as [Heq|Hne].
+    { subst c. rewrite enc_cp_lf. cbn [app off_walk orb].
+      rewrite N.eqb_refl, Eacr.
+      destruct (Z.leb_spec (Z.of_nat (S k)) 0) as [Hle|_]; [lia|].
+      rewrite Hk.
+      rewrite IH by assumption.
+      cbn [firstn]. rewrite enc_cons, enc_cp_lf, app_length. cbn [length].
+      change (10 =? 13)%N with false. lia. }
+    destruct (N.eqb_spec c 13) as [Heq|Hne'].
+    { subst c. rewrite enc_cp_cr. cbn [app off_walk orb].
+      change (13 =? 10)%N with false. rewrite andb_false_r.
+      destruct (Z.leb_spec (Z.of_nat (S k)) 0) as [Hle|_]; [lia|].
+      rewrite N.eqb_refl, Hk.
+      rewrite IH by assumption.
+      cbn [firstn]. rewrite enc_cons, enc_cp_cr, app_length. cbn [length]. lia. }
+    cbn [orb].
+    pose proof (enc_cp_no_eol c) as Hno.
+    destruct (enc_cp c) as [|b l] eqn:E; [exfalso; eapply enc_cp_nonnil; eauto|].
+    destruct (Hno b Hne Hne' (or_introl eq_refl)) as [Hb10 Hb13].
+    cbn [app off_walk].
+    destruct (N.eqb_spec b 10) as [Hb'|_]; [contradiction|].
+    destruct (N.eqb_spec b 13) as [Hb'|_]; [contradiction|].
+    rewrite andb_false_r.
+    destruct (Z.leb_spec (Z.of_nat (S k)) 0) as [Hle|_]; [lia|].
+    rewrite off_walk_app_noEOL; [|lia|intros b' Hb'; apply (Hno b' Hne Hne'); right; exact Hb'].
+    rewrite IH by assumption.
+    cbn [firstn]. rewrite enc_cons, E, app_length. cbn [length]. lia.
 Qed.
 
 (* 3d. positions *)
 
-Lemma pos_to_off_enc : forall d line char, valid_text d ->
-  pos_to_off (split_lines (enc d)) line char
-  = Val (Z.of_nat (length (enc (firstn (spec_pos d line char) d)))).
+Lemma pos_off_enc : forall d line char, valid_text d ->
+  pos_off (enc d) line char
+  = Z.of_nat (length (enc (firstn (spec_pos d line char) d))).
 Proof.
-  intros d line char Hv. unfold spec_pos.
+  intros d line char Hv. unfold pos_off, spec_pos.
   destruct (Z.ltb_spec line 0) as [Hneg|Hnn].
-  - unfold pos_to_off. destruct (Z.ltb_spec line 0) as [_|Hc]; [reflexivity|lia].
-  - rewrite <- (Z2Nat.id line) at 1 by assumption.
-    rewrite pos_to_off_boff, boff_enc by assumption. reflexivity.
+  - reflexivity.
+  - pose proof (off_walk_enc d (Z.to_nat line) false char 0 Hv) as H.
+    rewrite Z2Nat.id in H by assumption. rewrite H. reflexivity.
 Qed.
 
 (* 3e. the main result *)
@@ -426,8 +423,8 @@ Theorem mirror_correct : forall d txt sl sc el ec, valid_text d ->
   apply_change (enc d) (split_lines (enc d)) (Range sl sc el ec) (enc txt)
   = Val (enc (spec_apply d sl sc el ec txt)).
 Proof.
-  intros d txt sl sc el ec Hv. unfold apply_change. cbn [r_sl r_sc r_el r_ec].
-  rewrite !pos_to_off_enc by assumption. unfold spec_apply. cbv zeta.
+  intros d txt sl sc el ec Hv. unfold apply_change. cbn [r_sl r_sc r_el r_ec]. cbv zeta.
+  rewrite !pos_off_enc by assumption. unfold spec_apply. cbv zeta.
   set (s := spec_pos d sl sc). set (e' := spec_pos d el ec).
   pose proof (enc_firstn_le s d) as Hs.
   pose proof (enc_firstn_le (Nat.max s e') d) as He.
@@ -520,7 +517,7 @@ Proof.
     unfold spec_edits. cbn [fold_left]. apply IH; [apply spec_edit_valid; assumption|exact Hes'].
 Qed.
 
-Print Assumptions pos_to_off_val.
+Print Assumptions pos_off_bounds.
 Print Assumptions apply_change_total.
 Print Assumptions apply_all_total.
 Print Assumptions dm_run_total.
